@@ -6,7 +6,7 @@ From ClapModel Require Import Base.Bytes Base.Machine Base.Utf8.
 From ClapModel Require Import Parse.Cmd Parse.Build Parse.Valid Parse.Matcher Parse.Errors Parse.Validator Parse.Parser.
 From ClapModel Require Import ParseProofs.Unparse ParseProofs.UnparseTree ParseProofs.Actions.
 From ClapModel Require Import Derive.DeriveModel Derive.DeriveProofs Derive.DeriveCmd Derive.DeriveArgs Derive.DeriveParse
-                              Derive.DeriveAccept Derive.DerivePost.
+                              Derive.DeriveAccept Derive.DerivePost Derive.DeriveParseEx.
 From Coq Require Import ZArith List Bool Lia.
 Import ListNotations.
 Open Scope N_scope.
@@ -79,4 +79,31 @@ Proof. vm_compute. reflexivity. Qed.
 (** the hypothesis [required_mentioned] is needed: with the required field's occurrence dropped the command rejects *)
 Lemma ex_missing_required : derived_parse d [b_prog; [45;45;107;107;61;122]] = PError EMissingRequiredArgument.
 Proof. vm_compute. reflexivity. Qed.
+Lemma ex_fits : fits_all (d_nodes d) v.
+Proof. vm_compute. repeat split; reflexivity. Qed.
+(** the struct of DeriveParseEx.v (flag set, counter 3, a vector) *)
+Lemma ex_fits2 : fits_all (d_nodes ParseEx.d) ParseEx.v /\ Forall takes_ok (fields_of (d_nodes ParseEx.d))
+  /\ required_mentioned (d_nodes ParseEx.d) ParseEx.v.
+Proof.
+  split; [vm_compute; repeat split; reflexivity|]. split; [repeat constructor; vm_compute; reflexivity|].
+  intros f x Hat Hr. cbn [d_nodes ParseEx.d ParseEx.ns ParseEx.v at_node] in Hat.
+  destruct Hat as [[<- <-]|[[<- <-]|[[<- <-]|[[<- <-]|[]]]]]; vm_compute in Hr; discriminate Hr.
+Qed.
+Theorem ex_roundtrip_class : derived_parse d (b_prog :: argv) = PValue v.
+Proof. exact (roundtrip_parse_class d b_prog v argv ex_struct ex_takes ex_ok ex_fits ex_required_mentioned ex_valid ex_print). Qed.
+Theorem ex_roundtrip_class2 : derived_parse ParseEx.d (b_prog :: ParseEx.argv) = PValue ParseEx.v.
+Proof.
+  destruct ex_fits2 as (H1 & H2 & H3).
+  exact (roundtrip_parse_class ParseEx.d b_prog ParseEx.v ParseEx.argv ParseEx.ex_struct H2 ParseEx.ex_ok H1 H3 ParseEx.ex_valid ParseEx.ex_print).
+Qed.
 End PostEx.
+
+(** [fits] is needed: [Option<Vec<String>> = Some([])] prints to a bare [--xx], which the Append action's [1..=1] rejects *)
+Module FitsEx.
+Definition fov : field := mkField [120] (SynOption (SynVec SynPath)) TStr (KLong [120;120]) None None None None None false.
+Definition dv : dinput := mkDinput b_prog [83] (NCons (NArg fov) NNil).
+Lemma ex_unfit : print dv [DOptVec (Some [])] = Some [[45;45;120;120]]
+  /\ derived_parse dv [b_prog; [45;45;120;120]] = PError EInvalidValue
+  /\ ~ fits fov (DOptVec (Some [])).
+Proof. split; [vm_compute; reflexivity|]. split; [vm_compute; reflexivity|]. intros H. vm_compute in H. destruct H as [_ H]. discriminate H. Qed.
+End FitsEx.
